@@ -67,3 +67,182 @@ pub fn set_clock(s: u64, n: u32) {
 pub fn format_stub(_args: std::fmt::Arguments<'_>) -> String {
     String::new()
 }
+
+// ---------------------------------------------------------------------------------------------
+// Mock tokio-side IO whose calls are recorded in a global, for the generic adapter harnesses (C18)
+// ---------------------------------------------------------------------------------------------
+use std::io::IoSlice;
+use std::pin::Pin;
+use std::task::{Context, Poll};
+
+#[derive(Debug, Clone, Copy, PartialEq, Eq)]
+pub struct KAddr;
+impl std::fmt::Display for KAddr {
+    fn fmt(&self, _f: &mut std::fmt::Formatter<'_>) -> std::fmt::Result {
+        Ok(())
+    }
+}
+
+pub struct IoRec {
+    pub reads: u8,
+    pub calls: u8,
+    pub op: u8, // 1 write, 2 flush, 3 shutdown, 4 write_vectored
+    pub ptr: usize,
+    pub len: usize,
+    pub who: u8,
+}
+pub static mut IOREC: IoRec = IoRec { reads: 0, calls: 0, op: 0, ptr: 0, len: 0, who: 0 };
+
+#[derive(Debug)]
+pub struct MockIo {
+    pub id: u8,
+    pub data: [u8; 8],
+    pub k: usize,
+    pub mode: u8, // 0 ready, 1 pending, 2 err
+    pub ret: usize,
+    pub vectored: bool,
+}
+impl MockIo {
+    fn res<T>(&self, v: T) -> Poll<Result<T, std::io::Error>> {
+        match self.mode {
+            1 => Poll::Pending,
+            2 => Poll::Ready(Err(std::io::Error::from(std::io::ErrorKind::Other))),
+            _ => Poll::Ready(Ok(v)),
+        }
+    }
+}
+impl crate::info::HasConnectionInfo for MockIo {
+    type Addr = KAddr;
+    fn info(&self) -> crate::info::ConnectionInfo<KAddr> {
+        crate::info::ConnectionInfo { local_addr: KAddr, remote_addr: KAddr }
+    }
+}
+impl tokio::io::AsyncRead for MockIo {
+    fn poll_read(self: Pin<&mut Self>, _cx: &mut Context<'_>, buf: &mut tokio::io::ReadBuf<'_>) -> Poll<std::io::Result<()>> {
+        unsafe {
+            IOREC.reads += 1;
+            IOREC.who = self.id;
+        }
+        match self.mode {
+            1 => Poll::Pending,
+            2 => Poll::Ready(Err(std::io::Error::from(std::io::ErrorKind::Other))),
+            _ => {
+                let k = if self.k < buf.remaining() { self.k } else { buf.remaining() };
+                buf.put_slice(&self.data[..k]);
+                Poll::Ready(Ok(()))
+            }
+        }
+    }
+}
+impl tokio::io::AsyncWrite for MockIo {
+    fn poll_write(self: Pin<&mut Self>, _cx: &mut Context<'_>, buf: &[u8]) -> Poll<Result<usize, std::io::Error>> {
+        unsafe {
+            IOREC.calls += 1; IOREC.op = 1; IOREC.ptr = buf.as_ptr() as usize; IOREC.len = buf.len(); IOREC.who = self.id;
+        }
+        self.res(self.ret)
+    }
+    fn poll_flush(self: Pin<&mut Self>, _cx: &mut Context<'_>) -> Poll<Result<(), std::io::Error>> {
+        unsafe { IOREC.calls += 1; IOREC.op = 2; IOREC.who = self.id; }
+        self.res(())
+    }
+    fn poll_shutdown(self: Pin<&mut Self>, _cx: &mut Context<'_>) -> Poll<Result<(), std::io::Error>> {
+        unsafe { IOREC.calls += 1; IOREC.op = 3; IOREC.who = self.id; }
+        self.res(())
+    }
+    fn is_write_vectored(&self) -> bool {
+        self.vectored
+    }
+    fn poll_write_vectored(self: Pin<&mut Self>, _cx: &mut Context<'_>, bufs: &[IoSlice<'_>]) -> Poll<Result<usize, std::io::Error>> {
+        unsafe {
+            IOREC.calls += 1; IOREC.op = 4; IOREC.ptr = bufs.as_ptr() as usize; IOREC.len = bufs.len(); IOREC.who = self.id;
+        }
+        self.res(self.ret)
+    }
+}
+
+/// Generic C18 obligation for a tokio-side wrapper `W` around one `MockIo` (id 7):
+/// op 0 = read into a buffer of capacity `c` with `pre` bytes filled, inner chunk `k`;
+/// op 1..3 = write / flush / shutdown.  Everything must reach MockIo 7 exactly once and come back
+/// unchanged.
+#[inline(always)]
+pub fn adapter_op<W, F>(mk: F, op: u8, c: usize, pre: usize, k: usize)
+where
+    W: tokio::io::AsyncRead + tokio::io::AsyncWrite + Unpin,
+    F: FnOnce(MockIo) -> W,
+{
+    use tokio::io::{AsyncRead, AsyncWrite};
+    let data: [u8; 8] = kani::any();
+    let prefill: [u8; 4] = kani::any();
+    let mode: u8 = kani::any();
+    kani::assume(mode <= 2);
+    let ret: usize = kani::any();
+    let mut w = mk(MockIo { id: 7, data, k, mode, ret, vectored: false });
+    let waker = noop_waker();
+    let mut cx = Context::from_waker(&waker);
+    if op == 0 {
+        let mut storage = [std::mem::MaybeUninit::<u8>::uninit(); 16];
+        let mut rb = tokio::io::ReadBuf::uninit(&mut storage[..c]);
+        rb.put_slice(&prefill[..pre]);
+        let r = AsyncRead::poll_read(Pin::new(&mut w), &mut cx, &mut rb);
+        unsafe {
+            assert!(IOREC.reads == 1 && IOREC.who == 7 && IOREC.calls == 0);
+        }
+        let filled = rb.filled();
+        let mut i = 0;
+        while i < pre {
+            assert!(filled[i] == prefill[i], "pre-filled bytes were disturbed");
+            i += 1;
+        }
+        match r {
+            Poll::Pending => assert!(mode == 1 && filled.len() == pre),
+            Poll::Ready(Err(e)) => {
+                assert!(mode == 2 && filled.len() == pre);
+                std::mem::forget(e);
+            }
+            Poll::Ready(Ok(())) => {
+                assert!(mode == 0);
+                let n = if k < c - pre { k } else { c - pre };
+                assert!(filled.len() == pre + n, "filled count differs from the bytes the inner stream delivered");
+                let mut i = 0;
+                while i < n {
+                    assert!(filled[pre + i] == data[i], "delivered bytes differ from the inner stream's");
+                    i += 1;
+                }
+            }
+        }
+    } else {
+        let out: [u8; 6] = kani::any();
+        match op {
+            1 => {
+                let r = AsyncWrite::poll_write(Pin::new(&mut w), &mut cx, &out[..]);
+                match r {
+                    Poll::Pending => assert!(mode == 1),
+                    Poll::Ready(Ok(n)) => assert!(mode == 0 && n == ret, "write count altered"),
+                    Poll::Ready(Err(e)) => { assert!(mode == 2); std::mem::forget(e); }
+                }
+                unsafe { assert!(IOREC.ptr == out.as_ptr() as usize && IOREC.len == 6, "a different buffer reached the inner stream"); }
+            }
+            2 => {
+                let r = AsyncWrite::poll_flush(Pin::new(&mut w), &mut cx);
+                match r {
+                    Poll::Pending => assert!(mode == 1),
+                    Poll::Ready(Ok(())) => assert!(mode == 0),
+                    Poll::Ready(Err(e)) => { assert!(mode == 2); std::mem::forget(e); }
+                }
+            }
+            _ => {
+                let r = AsyncWrite::poll_shutdown(Pin::new(&mut w), &mut cx);
+                match r {
+                    Poll::Pending => assert!(mode == 1),
+                    Poll::Ready(Ok(())) => assert!(mode == 0),
+                    Poll::Ready(Err(e)) => { assert!(mode == 2); std::mem::forget(e); }
+                }
+            }
+        }
+        unsafe {
+            assert!(IOREC.calls == 1 && IOREC.op == op && IOREC.who == 7 && IOREC.reads == 0, "operation not forwarded exactly once to the same inner operation");
+        }
+    }
+    kani::cover!(true, "end reached");
+    std::mem::forget(w);
+}
